@@ -1,6 +1,7 @@
 package sim
 
 import (
+	"bytes"
 	"fmt"
 	"runtime"
 	"sync"
@@ -127,27 +128,89 @@ func (s *Sched) waitRegistered() {
 	}
 }
 
-// settle waits until the granted task parked, finished or blocked.
+// settle waits until the whole bubble is quiescent: every goroutine other than
+// the scheduler is parked, finished or blocked.
 func (s *Sched) settle(t *Task) {
-	if !s.NoHB || t == nil {
+	if !s.NoHB {
 		synctest.Wait()
 		return
 	}
-	deadline := time.Now() // fake clock does not move; count spins instead
-	_ = deadline
-	for i := 0; i < 20000; i++ {
-		p, d, _ := t.state()
-		if p || d {
+	// Race-detector mode: quiescence is read from the goroutine states in a
+	// runtime stack dump (no happens-before edge is created by looking).
+	for i := 0; i < 400; i++ {
+		if bubbleQuiescent() {
+			if t != nil {
+				if p, d, _ := t.state(); !p && !d {
+					t.blocked = true
+				}
+			}
 			return
 		}
 		runtime.Gosched()
 	}
-	// fallback: the task is slow or blocked inside the code under test
+	// fallback (slow I/O etc.)
 	synctest.Wait()
-	p, d, _ := t.state()
-	if !p && !d {
-		t.blocked = true
+	if t != nil {
+		if p, d, _ := t.state(); !p && !d {
+			t.blocked = true
+		}
 	}
+}
+
+var stackBuf = make([]byte, 1<<20)
+
+// goroutine wait reasons that only end through another goroutine's action or
+// the fake clock: a goroutine in one of these is at rest.
+var quietStates = [][]byte{
+	[]byte("chan receive"), []byte("chan send"), []byte("select"), []byte("semacquire"),
+	[]byte("sync.Mutex.Lock"), []byte("sync.RWMutex.RLock"), []byte("sync.RWMutex.Lock"),
+	[]byte("sync.Cond.Wait"), []byte("sync.WaitGroup.Wait"), []byte("sleep"), []byte("synctest"),
+}
+
+// bubbleQuiescent reports whether no goroutine of a synctest bubble other than
+// the caller is running, runnable or inside a system call.
+func bubbleQuiescent() bool {
+	n := runtime.Stack(stackBuf, true)
+	b := stackBuf[:n]
+	first := true
+	for len(b) > 0 {
+		// header line: "goroutine 12 [chan receive, synctest bubble 3]:"
+		i := bytes.Index(b, []byte("goroutine "))
+		if i < 0 {
+			break
+		}
+		b = b[i:]
+		eol := bytes.IndexByte(b, '\n')
+		if eol < 0 {
+			eol = len(b)
+		}
+		hdr := b[:eol]
+		b = b[eol:]
+		lb := bytes.IndexByte(hdr, '[')
+		rb := bytes.LastIndexByte(hdr, ']')
+		if lb < 0 || rb < lb {
+			continue
+		}
+		if first {
+			first = false // the caller itself is listed first
+			continue
+		}
+		st := hdr[lb+1 : rb]
+		if !bytes.Contains(st, []byte("synctest bubble")) {
+			continue
+		}
+		quiet := false
+		for _, w := range quietStates {
+			if bytes.HasPrefix(st, w) {
+				quiet = true
+				break
+			}
+		}
+		if !quiet {
+			return false // running, runnable, syscall, preempted, GC assist wait, IO wait, ...
+		}
+	}
+	return true
 }
 
 // Run drives the tasks until all are done, the step budget is exhausted or
@@ -201,36 +264,22 @@ func (s *Sched) Run() error {
 	return nil
 }
 
-// Drain lets every unfinished task run to completion: yields become no-ops and
-// parked tasks are released. Returns the names of tasks that still did not
-// finish (blocked forever).
-func (s *Sched) Drain(advance time.Duration, rounds int) []string {
-	s.setDraining()
-	for r := 0; r < rounds; r++ {
-		alive := 0
-		for _, t := range s.Tasks {
-			p, d, _ := t.state()
-			if d {
-				continue
-			}
-			alive++
-			if p {
-				t.clearParked()
-				select {
-				case t.gate <- struct{}{}:
-				default:
-				}
-			}
-		}
-		if alive == 0 {
-			return nil
-		}
-		synctest.Wait()
-		if advance > 0 {
-			time.Sleep(advance)
-			synctest.Wait()
-		}
+// Drain completes the run deterministically: the choice stream is exhausted, so
+// every decision picks the first parked task (or, when none is parked, advances
+// the clock by the given amount so that timeouts fire). Returns the tasks that
+// still did not finish within the extra step budget.
+func (s *Sched) Drain(advance time.Duration, extraSteps int) []string {
+	s.Choices = nil
+	s.pos = 0
+	s.Advances = nil
+	if advance > 0 {
+		s.Advances = []time.Duration{advance}
 	}
+	base := s.Steps
+	s.MaxSteps = extraSteps
+	_ = s.Run()
+	s.Steps += base
+	synctest.Wait()
 	var stuck []string
 	for _, t := range s.Tasks {
 		if _, d, site := t.state(); !d {
